@@ -202,3 +202,18 @@ def source_words(rel_paths=None):
                 elif isinstance(v, str) and 1 <= len(v) <= 12:
                     strs.add(v)
     return {"ints": ints, "strs": strs, "floats": floats}
+
+
+def address_alphabet(limit=160):
+    """24-bit addresses worth trying wherever an address should not matter (or must be recovered): corners, walking bits,
+    every address-sized integer / 6-hex-digit string the source writes down, its neighbours +-1, and the midpoints between
+    consecutive such constants (the interior of every range the source delimits, e.g. unallocated address blocks)."""
+    import re
+    a = [0, 1, 0xFFFFFF, 0xFFFFFE, 0x800000, 0x7FFFFF, 0x4840D6, 0xABCDEF, 0x406B90] + [1 << i for i in range(0, 24, 3)]
+    w = source_words()
+    lit = sorted({int(x, 16) for x in w["strs"] if re.fullmatch(r"[0-9A-Fa-f]{6}", x)} | {x for x in w["ints"] if 0xFFFF < x < (1 << 24)})
+    for c in lit:
+        a += [c, (c + 1) & 0xFFFFFF, (c - 1) & 0xFFFFFF]
+    for c1, c2 in zip(lit, lit[1:]):
+        a.append((c1 + c2) // 2)
+    return list(dict.fromkeys(a))[:limit]
